@@ -100,6 +100,13 @@ class _DrawBase:
     def rng(self):
         return np.random.default_rng(self.seed())
 
+    def aux(self, tag):
+        """a second random stream derived from the last recorded seed: for
+        decisions added to a generator later on, so that the recorded choice
+        lists of committed replays keep their meaning"""
+        seeds = [c[1] for c in self.choices if c[0] == 's']
+        return np.random.default_rng([seeds[-1] if seeds else 0, int(tag)])
+
     def ints(self, n, hi):
         """List of n integers in [0, hi] (one recorded choice)."""
         n, hi = int(n), int(hi)
